@@ -111,6 +111,8 @@ def reinsert_atoms(atoms: Atoms, new_atoms: Atoms, indices: IntegerArray) -> Non
     None
         The Atoms object with the reinserted atoms.
     """
+    indices = np.asarray(indices, dtype=int)
+
     len_atoms = len(atoms)
     len_new_atoms = len(new_atoms)
 
